@@ -57,6 +57,7 @@ impl Statement {
             Substitution { var, rhe, .. } => {
                 result = result || rhe.propagate_degrees(env);
                 if env.is_local(var) {
+                    env.set_assigned(var);
                     if let Some(range) = rhe.degree() {
                         result = result || env.set_degree(var, range);
                     }
